@@ -252,7 +252,12 @@ impl Fdt {
         filedesc.set_published();
         self.fdt_transfer_queue.push_back(filedesc);
         self.fdtid = (self.fdtid + 1) & 0xFFFFF;
-        self.last_publish = Some(now);
+        // Expires is expressed in whole seconds: count the age of the instance from the same second
+        let subsec = now
+            .duration_since(SystemTime::UNIX_EPOCH)
+            .map(|d| d.subsec_nanos())
+            .unwrap_or(0);
+        self.last_publish = Some(now - std::time::Duration::from_nanos(subsec as u64));
         self.files.iter().for_each(|(_, file)| file.set_published());
         Ok(())
     }
